@@ -75,6 +75,11 @@ def onRecv (e : Env) (node c : List Block) (pend : List Tx) (t : Tx) : List Tx :
   if !t.cb && !hasId pend t.id && !onChain c t.id && relevant e t && readable node pend t then pend ++ [t]
   else pend
 
+/-- the set of READY wallets changed (a wallet was removed; `e'` is the environment afterwards): a pending
+    transaction is tracked iff it is relevant to some ready, non-removed wallet — what was relevant only to the
+    wallet that is gone is dropped, what a surviving wallet pays, is paid by or spends stays (C08) -/
+def onWalletsChanged (e' : Env) (pend : List Tx) : List Tx := pend.filter (relevant e')
+
 /-- the blocks of `c` that are not on `c'` -/
 def left (c c' : List Block) : List Block := c.filter (fun b => !c'.any (fun b' => b'.id = b.id))
 
